@@ -34,6 +34,17 @@ func Interpret(b *[]byte, t FieldType) interface{} {
 		return *b
 	}
 
+	// An integer sent in more octets than its type has (NetFlow v9 exporters do so, e.g. an
+	// unsigned32 interface index in 8 octets) is the value of all of its octets.
+	if len(*b) > t.minLen() {
+		switch t {
+		case Uint8, Uint16, Uint32, Uint64:
+			return wideUint(*b)
+		case Int8, Int16, Int32, Int64:
+			return wideInt(*b)
+		}
+	}
+
 	switch t {
 	case Boolean:
 		return (*b)[0] == 1
@@ -71,6 +82,33 @@ func Interpret(b *[]byte, t FieldType) interface{} {
 		return *b
 	}
 	return *b
+}
+
+// wideUint returns the big-endian unsigned integer of up to 8 octets; more octets do not
+// fit an integer and are returned as they are.
+func wideUint(b []byte) interface{} {
+	if len(b) > 8 {
+		return b
+	}
+	var v uint64
+	for _, x := range b {
+		v = v<<8 | uint64(x)
+	}
+	return v
+}
+
+// wideInt returns the big-endian two's-complement integer of up to 8 octets (sign
+// extended to 64 bits); more octets are returned as they are.
+func wideInt(b []byte) interface{} {
+	if len(b) > 8 {
+		return b
+	}
+	var v uint64
+	for _, x := range b {
+		v = v<<8 | uint64(x)
+	}
+	shift := uint(64 - 8*len(b))
+	return int64(v<<shift) >> shift
 }
 
 func (t FieldType) minLen() int {
